@@ -6,6 +6,15 @@ From P9V Require Import gen.ConstGen Fsx.Qid Fsx.QidArith.
 Import ListNotations.
 Open Scope N_scope.
 
+(** The unbounded counter ("ideal" model).  Everything is proved of it first;
+    below, the uint64 model of Qid.v is shown to coincide with it as long as fewer
+    than 2^63 steps are taken (every allocation is a step), and the theorems are
+    restated for the uint64 model under that explicit bound. *)
+Notation fstep1_i := (fstep1g (fun n => n + 1)).
+Notation fstep_i := (fstepg (fun n => n + 1)).
+Notation frun_i := (frung (fun n => n + 1)).
+Notation local_to_qid_i := (local_to_qid_g (fun n => n + 1)).
+
 Lemma key_eqb_eq a b : key_eqb a b = true <-> a = b.
 Proof.
   destruct a, b. unfold key_eqb. cbn. rewrite andb_true_iff, !N.eqb_eq.
@@ -45,11 +54,11 @@ Qed.
 Ltac nthcase H i j :=
   rewrite nth_upd in H; destruct (Nat.eqb_spec i j); [subst j|].
 
-Lemma fstep_inv s i : FInv s -> FInv (fstep s i).
+Lemma fstep_inv s i : FInv s -> FInv (fstep_i s i).
 Proof.
-  intros I. unfold fstep. destruct (nth_error (f_thr s) i) as [p|] eqn:Ep; [|exact I].
+  intros I. unfold fstepg. destruct (nth_error (f_thr s) i) as [p|] eqn:Ep; [|exact I].
   destruct I as [Inx Irng Iinj Ipend Iuniq Idone].
-  destruct p as [k|k|k v|k r]; cbn [fstep1].
+  destruct p as [k|k|k v|k r]; cbn [fstep1g].
   - (* Load *)
     destruct (klookup k (f_tbl s)) as [v|] eqn:El; split; cbn [f_tbl f_next f_thr]; auto.
     + intros j k0 v0 H. nthcase H i j; [rewrite Ep in H; discriminate|eauto].
@@ -104,26 +113,26 @@ Proof.
     + intros j k0 r0 H. nthcase H i j; [rewrite Ep in H; inversion H; subst; eauto|eauto].
 Qed.
 
-Lemma frun_inv sched : forall s, FInv s -> FInv (frun s sched).
+Lemma frun_inv sched : forall s, FInv s -> FInv (frun_i s sched).
 Proof.
-  unfold frun. induction sched as [|i sched IH]; intros s I; cbn; [exact I|].
+  unfold frung. induction sched as [|i sched IH]; intros s I; cbn; [exact I|].
   apply IH. now apply fstep_inv.
 Qed.
 
 (** a returned result is never revised, the table entry it came from stays *)
 Lemma fstep_done_stable s i j k r :
-  nth_error (f_thr s) j = Some (FDone k r) -> nth_error (f_thr (fstep s i)) j = Some (FDone k r).
+  nth_error (f_thr s) j = Some (FDone k r) -> nth_error (f_thr (fstep_i s i)) j = Some (FDone k r).
 Proof.
-  intros H. unfold fstep. destruct (nth_error (f_thr s) i) as [p|] eqn:Ep; [|exact H].
-  destruct (fstep1 (f_tbl s) (f_next s) p) as [[t n] p'] eqn:E. cbn [f_thr].
+  intros H. unfold fstepg. destruct (nth_error (f_thr s) i) as [p|] eqn:Ep; [|exact H].
+  destruct (fstep1_i (f_tbl s) (f_next s) p) as [[t n] p'] eqn:E. cbn [f_thr].
   rewrite nth_upd. destruct (Nat.eqb_spec i j) as [->|]; [|exact H].
   rewrite Ep. rewrite Ep in H. inversion H; subst. cbn in E. inversion E; subst. reflexivity.
 Qed.
 
 Lemma frun_done_stable sched : forall s j k r,
-  nth_error (f_thr s) j = Some (FDone k r) -> nth_error (f_thr (frun s sched)) j = Some (FDone k r).
+  nth_error (f_thr s) j = Some (FDone k r) -> nth_error (f_thr (frun_i s sched)) j = Some (FDone k r).
 Proof.
-  unfold frun. induction sched as [|i sched IH]; intros s j k r H; cbn; [exact H|].
+  unfold frung. induction sched as [|i sched IH]; intros s j k r H; cbn; [exact H|].
   apply IH. now apply fstep_done_stable.
 Qed.
 
@@ -131,9 +140,9 @@ Qed.
     looked at any time and again any time later: results that were returned
     stay, the same pair always gets the same path, different pairs different
     paths, every path is above 2^63 (so never a compact encoding). *)
-Theorem fallback_all_interleavings keys sched sched2 i j k k' r r' :
-  let s := frun (finit keys) sched in
-  let s2 := frun s sched2 in
+Theorem fallback_all_interleavings_i keys sched sched2 i j k k' r r' :
+  let s := frun_i (finit keys) sched in
+  let s2 := frun_i s sched2 in
   nth_error (f_thr s) i = Some (FDone k r) ->
   nth_error (f_thr s2) j = Some (FDone k' r') ->
   nth_error (f_thr s2) i = Some (FDone k r) /\
@@ -151,36 +160,36 @@ Proof.
 Qed.
 
 (** the uninterleaved function is the three steps run in a row *)
-Lemma local_to_qid_is_run t n d i : encodeLikely d i = None ->
+Lemma local_to_qid_is_run_i t n d i : encodeLikely d i = None ->
   forall thr0, let s := mkF t n (FStart (d, i) :: thr0) in
-  let s' := frun s [0%nat; 0%nat; 0%nat] in
-  let '(r, t', n') := local_to_qid t n d i in
+  let s' := frun_i s [0%nat; 0%nat; 0%nat] in
+  let '(r, t', n') := local_to_qid_i t n d i in
   f_tbl s' = t' /\ f_next s' = n' /\ nth_error (f_thr s') 0 = Some (FDone (d, i) r).
 Proof.
-  intros E thr0. unfold local_to_qid. rewrite E. cbn.
+  intros E thr0. unfold local_to_qid_g. rewrite E. cbn.
   destruct (klookup (d, i) t) eqn:L; cbn; [rewrite ?L; cbn; auto|].
   rewrite L. cbn. auto.
 Qed.
 
 (** sequential histories: a path handed out for a pair is handed out again on
     every later call, whatever was looked up in between *)
-Fixpoint lrun (t : list (key * N)) (n : N) (h : list key) : list (key * N) * N :=
+Fixpoint lrun_i (t : list (key * N)) (n : N) (h : list key) : list (key * N) * N :=
   match h with
   | [] => (t, n)
-  | (d, i) :: r => let '(_, t', n') := local_to_qid t n d i in lrun t' n' r
+  | (d, i) :: r => let '(_, t', n') := local_to_qid_i t n d i in lrun_i t' n' r
   end.
 
 Definition LInv (t : list (key * N)) (n : N) : Prop :=
   next0 <= n /\ (forall k v, klookup k t = Some v -> next0 < v <= n) /\
   (forall k k' v, klookup k t = Some v -> klookup k' t = Some v -> k = k').
 
-Lemma local_to_qid_inv t n d i r t' n' :
-  LInv t n -> local_to_qid t n d i = (r, t', n') ->
+Lemma local_to_qid_inv_i t n d i r t' n' :
+  LInv t n -> local_to_qid_i t n d i = (r, t', n') ->
   LInv t' n' /\ (forall k v, klookup k t = Some v -> klookup k t' = Some v) /\
   (encodeLikely d i = None -> klookup (d, i) t' = Some r) /\
   (encodeLikely d i = Some r \/ encodeLikely d i = None).
 Proof.
-  intros (Hn & Hr & Hi) H. unfold local_to_qid in H.
+  intros (Hn & Hr & Hi) H. unfold local_to_qid_g in H.
   destruct (encodeLikely d i) as [q|] eqn:E.
   - inversion H; subst. split; [split; [|split]; assumption|]. split; [auto|]. split; [discriminate|left; reflexivity].
   - destruct (klookup (d, i) t) as [v|] eqn:L.
@@ -198,28 +207,28 @@ Proof.
       * intros _. cbn. now rewrite key_eqb_refl.
 Qed.
 
-Lemma lrun_inv h : forall t n t' n', LInv t n -> lrun t n h = (t', n') ->
+Lemma lrun_inv h : forall t n t' n', LInv t n -> lrun_i t n h = (t', n') ->
   LInv t' n' /\ forall k v, klookup k t = Some v -> klookup k t' = Some v.
 Proof.
   induction h as [|[d i] h IH]; intros t n t' n' I H; cbn in H.
   - inversion H; subst. auto.
-  - destruct (local_to_qid t n d i) as [[r t1] n1] eqn:E.
-    destruct (local_to_qid_inv _ _ _ _ _ _ _ I E) as (I1 & X1 & _).
+  - destruct (local_to_qid_i t n d i) as [[r t1] n1] eqn:E.
+    destruct (local_to_qid_inv_i _ _ _ _ _ _ _ I E) as (I1 & X1 & _).
     destruct (IH _ _ _ _ I1 H) as (I2 & X2). auto.
 Qed.
 
-Theorem local_to_qid_stable_injective h1 h2 d i d' i' r r' t1 n1 t2 n2 t3 n3 t4 n4 :
+Theorem local_to_qid_stable_injective_i h1 h2 d i d' i' r r' t1 n1 t2 n2 t3 n3 t4 n4 :
   d < two64 -> i < two64 -> d' < two64 -> i' < two64 ->
-  lrun [] next0 h1 = (t1, n1) -> local_to_qid t1 n1 d i = (r, t2, n2) ->
-  lrun t2 n2 h2 = (t3, n3) -> local_to_qid t3 n3 d' i' = (r', t4, n4) ->
+  lrun_i [] next0 h1 = (t1, n1) -> local_to_qid_i t1 n1 d i = (r, t2, n2) ->
+  lrun_i t2 n2 h2 = (t3, n3) -> local_to_qid_i t3 n3 d' i' = (r', t4, n4) ->
   ((d, i) = (d', i') <-> r = r').
 Proof.
   intros Hd Hi Hd' Hi' R1 L1 R2 L2.
   assert (I0 : LInv [] next0) by (repeat split; cbn; try discriminate; lia).
   destruct (lrun_inv _ _ _ _ _ I0 R1) as (I1 & _).
-  destruct (local_to_qid_inv _ _ _ _ _ _ _ I1 L1) as (I2 & _ & S1 & C1).
+  destruct (local_to_qid_inv_i _ _ _ _ _ _ _ I1 L1) as (I2 & _ & S1 & C1).
   destruct (lrun_inv _ _ _ _ _ I2 R2) as (I3 & X23).
-  destruct (local_to_qid_inv _ _ _ _ _ _ _ I3 L2) as (I4 & X34 & S2 & C2).
+  destruct (local_to_qid_inv_i _ _ _ _ _ _ _ I3 L2) as (I4 & X34 & S2 & C2).
   destruct I4 as (_ & Hr4 & Hi4).
   destruct C1 as [C1|C1]; destruct C2 as [C2|C2].
   - split; [intros [= <- <-]; congruence|intros <-]. destruct (encodeLikely_inj _ _ _ _ _ Hd Hi Hd' Hi' C1 C2). congruence.
@@ -238,3 +247,108 @@ Lemma ptrkey_refuted :
   let '(r2, _, _) := local_to_qid_ptrkey t1 n1 0x100000801 7 in
   r1 <> r2.
 Proof. vm_compute. discriminate. Qed.
+
+(** * the uint64 counter: coincides with the unbounded one below the bound *)
+Lemma inc64_small n : n + 1 < two64 -> inc64 n = n + 1.
+Proof. intros H. unfold inc64. now apply N.mod_small. Qed.
+
+Lemma fstep_eq_i s i : f_next s + 1 < two64 -> fstep s i = fstep_i s i.
+Proof.
+  intros H. unfold fstep, fstepg. destruct (nth_error (f_thr s) i) as [p|]; [|reflexivity].
+  destruct p; cbn [fstep1g]; try reflexivity. now rewrite inc64_small.
+Qed.
+
+Lemma fstep_i_next s i : f_next (fstep_i s i) <= f_next s + 1.
+Proof.
+  unfold fstepg. destruct (nth_error (f_thr s) i) as [p|]; [|lia].
+  destruct p as [k|k|k v|k r]; cbn [fstep1g]; try destruct (klookup k (f_tbl s)); cbn [f_next]; lia.
+Qed.
+
+Lemma frun_eq_i sched : forall s, f_next s + N.of_nat (length sched) < two64 -> frun s sched = frun_i s sched.
+Proof.
+  unfold frun, frung. induction sched as [|i sched IH]; intros s H; [reflexivity|].
+  cbn [fold_left length] in *. change (fstepg inc64 s i) with (fstep s i).
+  rewrite fstep_eq_i by lia. apply IH. pose proof (fstep_i_next s i). lia.
+Qed.
+
+Lemma frun_app inc s a b : frung inc s (a ++ b) = frung inc (frung inc s a) b.
+Proof. unfold frung. apply fold_left_app. Qed.
+
+(** C20_fallback for the uint64 model: any number of concurrent lookups, any
+    schedule of fewer than 2^63 steps in total (each allocation is one step) *)
+Theorem fallback_all_interleavings keys sched sched2 i j k k' r r' :
+  N.of_nat (length sched + length sched2) < 2 ^ 63 ->
+  let s := frun (finit keys) sched in
+  let s2 := frun s sched2 in
+  nth_error (f_thr s) i = Some (FDone k r) ->
+  nth_error (f_thr s2) j = Some (FDone k' r') ->
+  nth_error (f_thr s2) i = Some (FDone k r) /\
+  (k = k' <-> r = r') /\ 2 ^ 63 < r /\ 2 ^ 63 < r'.
+Proof.
+  intros Hb s s2.
+  assert (E1 : s = frun_i (finit keys) sched).
+  { unfold s. apply frun_eq_i. cbn [finit f_next]. unfold next0, two64. change (2 ^ 63) with 9223372036854775808 in Hb. lia. }
+  assert (E2 : s2 = frun_i (frun_i (finit keys) sched) sched2).
+  { unfold s2, s. unfold frun. rewrite <- !frun_app. apply (frun_eq_i (sched ++ sched2)).
+    cbn [finit f_next]. rewrite app_length. unfold next0, two64. change (2 ^ 63) with 9223372036854775808 in Hb. lia. }
+  rewrite E1, E2. apply fallback_all_interleavings_i.
+Qed.
+
+(** sequential histories, uint64 counter *)
+Fixpoint lrun (t : list (key * N)) (n : N) (h : list key) : list (key * N) * N :=
+  match h with
+  | [] => (t, n)
+  | (d, i) :: r => let '(_, t', n') := local_to_qid t n d i in lrun t' n' r
+  end.
+
+Lemma local_to_qid_eq_i t n d i : n + 1 < two64 -> local_to_qid t n d i = local_to_qid_i t n d i.
+Proof. intros H. unfold local_to_qid, local_to_qid_g. now rewrite inc64_small. Qed.
+
+Lemma local_to_qid_i_next t n d i r t' n' : local_to_qid_i t n d i = (r, t', n') -> n' <= n + 1.
+Proof.
+  unfold local_to_qid_g. destruct (encodeLikely d i); [intros [= _ _ <-]; lia|].
+  destruct (klookup (d, i) t); intros [= _ _ <-]; lia.
+Qed.
+
+Lemma lrun_eq_i h : forall t n t' n', n + N.of_nat (length h) < two64 ->
+  lrun t n h = (t', n') -> lrun_i t n h = (t', n') /\ n' <= n + N.of_nat (length h).
+Proof.
+  induction h as [|[d i] h IH]; intros t n t' n' Hb H; cbn [lrun lrun_i length] in *.
+  - inversion H; subst. split; [reflexivity|lia].
+  - rewrite local_to_qid_eq_i in H by lia.
+    destruct (local_to_qid_i t n d i) as [[r t1] n1] eqn:E.
+    pose proof (local_to_qid_i_next _ _ _ _ _ _ _ E) as Hn.
+    destruct (IH t1 n1 t' n') as (A & B); [lia|exact H|]. split; [exact A|lia].
+Qed.
+
+(** C20 for the whole localToQid with its uint64 counter: fewer than 2^63 calls in all *)
+Theorem local_to_qid_stable_injective h1 h2 d i d' i' r r' t1 n1 t2 n2 t3 n3 t4 n4 :
+  N.of_nat (length h1 + length h2) + 2 < 2 ^ 63 ->
+  d < two64 -> i < two64 -> d' < two64 -> i' < two64 ->
+  lrun [] next0 h1 = (t1, n1) -> local_to_qid t1 n1 d i = (r, t2, n2) ->
+  lrun t2 n2 h2 = (t3, n3) -> local_to_qid t3 n3 d' i' = (r', t4, n4) ->
+  ((d, i) = (d', i') <-> r = r').
+Proof.
+  intros Hb Hd Hi Hd' Hi' R1 L1 R2 L2.
+  change (2 ^ 63) with 9223372036854775808 in Hb.
+  assert (B0 : next0 = 9223372036854775808) by reflexivity. assert (B1 : two64 = 18446744073709551616) by reflexivity.
+  rewrite Nat2N.inj_add in Hb.
+  destruct (lrun_eq_i h1 [] next0 t1 n1) as (R1' & N1); [lia|exact R1|].
+  rewrite local_to_qid_eq_i in L1 by lia.
+  pose proof (local_to_qid_i_next _ _ _ _ _ _ _ L1) as N2.
+  destruct (lrun_eq_i h2 t2 n2 t3 n3) as (R2' & N3); [lia|exact R2|].
+  rewrite local_to_qid_eq_i in L2 by lia.
+  eapply local_to_qid_stable_injective_i; eauto.
+Qed.
+
+(** the uninterleaved function is the three steps of the interleaving model (both with the uint64 counter) *)
+Lemma local_to_qid_is_run t n d i : encodeLikely d i = None ->
+  forall thr0, let s := mkF t n (FStart (d, i) :: thr0) in
+  let s' := frun s [0%nat; 0%nat; 0%nat] in
+  let '(r, t', n') := local_to_qid t n d i in
+  f_tbl s' = t' /\ f_next s' = n' /\ nth_error (f_thr s') 0 = Some (FDone (d, i) r).
+Proof.
+  intros E thr0. unfold local_to_qid, local_to_qid_g. rewrite E. cbn.
+  destruct (klookup (d, i) t) eqn:L; cbn; [rewrite ?L; cbn; auto|].
+  rewrite L. cbn. auto.
+Qed.
